@@ -153,6 +153,14 @@ class TermEngine(Engine):
             if is_arr(src) and {n.id for n in ast.walk(e.elt) if isinstance(n, ast.Name)} <= {g.target.id, "int", "float", "complex", "abs"}:
                 return uf("map[%s for %s]" % (ast.unparse(e.elt), g.target.id), Arr, src)
             raise Unsupported("list comprehension")
+        if isinstance(e, ast.Call) and isinstance(e.func, ast.Name) and e.func.id in ("all", "any") and len(e.args) == 1 and isinstance(e.args[0], (ast.GeneratorExp, ast.ListComp)):
+            g0 = e.args[0].generators[0]
+            try:
+                src0 = self.ev(g0.iter, env, pc)
+            except Unsupported:
+                src0 = None
+            if is_arr(src0):  # a quantified condition over the entries of an array-valued term: an opaque predicate named by its source text
+                return self.opaque_pred(e, env)
         if isinstance(e, ast.Call) and isinstance(e.func, ast.Name) and e.func.id in ("len", "sum", "range") and e.args:
             a0 = self.ev(e.args[0], env, pc)
             if e.func.id == "len" and isinstance(a0, (list, tuple)):
@@ -311,6 +319,8 @@ class TermEngine(Engine):
                 raise Unsupported("non-constant keyword %s" % k.arg)
             else:
                 kws.append("%s=%s" % (k.arg, c))
+        if name in ("np.linalg.eigh", "np.linalg.eig") and len(args) == 1 and is_arr(args[0]) and not kws and not kw_terms:
+            return (uf(name + "#0", Arr, args[0]), uf(name + "#1", Arr, args[0]))  # (eigenvalues, eigenvectors)
         if name in ("np.allclose", "np.isclose"):
             # numpy's documented signature: (a, b, rtol=1e-05, atol=1e-08); applied by parameter name with defaults made explicit
             vals = {}
